@@ -357,7 +357,8 @@ func checkRelocate(w *core.Worker, rr *core.Rand, u []byte, big []byte) {
 		}
 	}
 	n := len(u)
-	targets := []int{0, 1, 255, 4096, 65535 - n - 3, 65535 - n, rr.Intn(60000)}
+	// also targets so close to the addressing limit that only too-short spans exist there
+	targets := []int{0, 1, 255, 4096, 65535 - n - 3, 65535 - n, rr.Intn(60000), 65535 - n + 1, 65535 - n + 2, 65535 - n/2, 65534}
 	for _, t := range targets {
 		if t < 0 {
 			continue
